@@ -37,10 +37,10 @@ func CheckStored(r *Report, tag string, seg segment.Segment, m *model.Seg, early
 	}
 	// ids returned by DocID are kept (not copied) across all later calls: a caller
 	// may hold on to them
-	heldIDs := make([][]byte, 0, m.NumDocs)
+	heldIDs := map[uint64][]byte{}
 	defer func() {
-		for d, id := range heldIDs {
-			if string(id) != m.IDs[d] {
+		for d := uint64(0); d < m.NumDocs; d++ {
+			if id, ok := heldIDs[d]; ok && string(id) != m.IDs[d] {
 				r.Fail("docid-unstable", "%s: the slice DocID(%d) returned reads %q after later calls, want %q", tag, d, id, m.IDs[d])
 				break
 			}
@@ -112,7 +112,9 @@ func CheckStored(r *Report, tag string, seg segment.Segment, m *model.Seg, early
 		if err != nil || string(id) != m.IDs[d] {
 			r.Fail("docid", "%s: DocID(%d)=%q,%v want %q", tag, d, id, err, m.IDs[d])
 		}
-		heldIDs = append(heldIDs, id)
+		if err == nil && string(id) == m.IDs[d] {
+			heldIDs[d] = id
+		}
 	}
 	for _, d := range []uint64{m.NumDocs, m.NumDocs + 1, m.NumDocs + 1000, 1 << 31} {
 		n := 0
